@@ -435,7 +435,14 @@ func runC02Growth(c *core.Ctx, report func(part, kind, msg string, attrs map[str
 	gfs := g0.FSView(sAfter)
 	// a first request that reaches a Named value of type A or B (so that whatever the library remembers about Named is filled)
 	first := ""
+	// (at the root first: its Go type has been bound through nothing else yet when the interface is asked about it)
+	if n, _ := g0.Root.F["named"].(*world.Node); n != nil && n.Type != "C" {
+		first = "{ named { name } }"
+	}
 	for _, f1 := range []string{"a", "b"} {
+		if first != "" {
+			break
+		}
 		if n1, _ := g0.Root.F[f1].(*world.Node); n1 != nil {
 			if n2, _ := n1.F["named"].(*world.Node); n2 != nil && n2.Type != "C" {
 				first = "{ " + f1 + " { named { name } } }"
